@@ -10,44 +10,44 @@ namespace Panqec
 /-- what every reachable state of a `BeliefPropagationOSDDecoder` satisfies: once
     initialised, the ldpc objects are the ones built from `Hx`, `Hz` (CSS) or the full
     matrix (non-CSS).  Channel probabilities and result buffers are arbitrary. -/
-def BpDec.Good (d : BpDec) (st : BpSt) : Prop :=
+def BpDec_dec.Good (d : BpDec_dec) (st : BpSt) : Prop :=
   st.initialized = true →
     (isCss d.H = true → ∃ xd zd, st.xDec = some xd ∧ st.zDec = some zd ∧
         xd.matrix = Hz d.H ∧ xd.serial = true ∧ zd.matrix = Hx d.H ∧ zd.serial = true) ∧
     (isCss d.H = false → ∃ dd, st.dec = some dd ∧ dd.matrix = d.H ∧ dd.serial = false)
 
-theorem BpDec.good_init (d : BpDec) : d.Good BpSt.init := by
+theorem BpDec_dec.good_init (d : BpDec_dec) : d.Good BpSt.init := by
   intro h; simp [BpSt.init] at h
 
-theorem BpDec.initialize_initialized (d : BpDec) (st : BpSt) :
+theorem BpDec_dec.initialize_initialized (d : BpDec_dec) (st : BpSt) :
     (d.initialize st).1.initialized = true := by
-  unfold BpDec.initialize; split <;> rfl
+  unfold BpDec_dec.initialize; split <;> rfl
 
-theorem BpDec.good_initialize (d : BpDec) (st : BpSt) : d.Good (d.initialize st).1 := by
+theorem BpDec_dec.good_initialize (d : BpDec_dec) (st : BpSt) : d.Good (d.initialize st).1 := by
   intro _
-  unfold BpDec.initialize
+  unfold BpDec_dec.initialize
   cases h : isCss d.H
   · simp [Ldpc.new]
   · simp [Ldpc.new]
 
-theorem BpDec.ready_spec (d : BpDec) (st : BpSt) (hg : d.Good st) :
+theorem BpDec_dec.ready_spec (d : BpDec_dec) (st : BpSt) (hg : d.Good st) :
     (d.ready st).1.initialized = true ∧ d.Good (d.ready st).1 := by
-  unfold BpDec.ready
+  unfold BpDec_dec.ready
   cases h : st.initialized
-  · simp [BpDec.initialize_initialized, BpDec.good_initialize]
+  · simp [BpDec_dec.initialize_initialized, BpDec_dec.good_initialize]
   · simp [h, hg]
 
 /-- for an initialised good state the correction is the pure function of the syndrome,
     and the next state is good -/
-theorem BpDec.decodeReady_eq_pure (S : BpSolver) (d : BpDec) (st : BpSt) (s : Vec)
+theorem BpDec_dec.decodeReady_eq_pure (S : BpSolver) (d : BpDec_dec) (st : BpSt) (s : Vec)
     (hi : st.initialized = true) (hg : d.Good st) :
     (d.decodeReady S st s).2.2 = d.pureDecode S s ∧ d.Good (d.decodeReady S st s).1 := by
   have hg' := hg hi
-  unfold BpDec.decodeReady BpDec.pureDecode
+  unfold BpDec_dec.decodeReady BpDec_dec.pureDecode
   cases hcss : isCss d.H
   · obtain ⟨dd, hdd, hm, hs⟩ := hg'.2 hcss
     simp only [hdd, Bool.false_eq_true, if_false]
-    unfold BpDec.decodeFull
+    unfold BpDec_dec.decodeFull
     by_cases hl : s.length = d.H.length
     · simp only [hl, if_true]
       refine ⟨by simp [Ldpc.decode, Ldpc.update, hm, hs], ?_⟩
@@ -62,7 +62,7 @@ theorem BpDec.decodeReady_eq_pure (S : BpSolver) (d : BpDec) (st : BpSt) (s : Ve
     simp only [if_true]
     by_cases hl : s.length = d.H.length
     · simp only [hl, if_true, hxd, hzd]
-      unfold BpDec.decodeCss
+      unfold BpDec_dec.decodeCss
       constructor
       · cases hcu : d.cfg.channelUpdate <;>
           simp [Ldpc.decode, Ldpc.update, hxm, hxs, hzm, hzs]
@@ -75,16 +75,16 @@ theorem BpDec.decodeReady_eq_pure (S : BpSolver) (d : BpDec) (st : BpSt) (s : Ve
 
 /-- every good state: the returned correction only depends on the syndrome, and the
     next state is good again -/
-theorem BpDec.decode_eq_pure (S : BpSolver) (d : BpDec) (st : BpSt) (s : Vec) (hg : d.Good st) :
+theorem BpDec_dec.decode_eq_pure (S : BpSolver) (d : BpDec_dec) (st : BpSt) (s : Vec) (hg : d.Good st) :
     (d.decode S st s).2.2 = d.pureDecode S s ∧ d.Good (d.decode S st s).1 := by
   obtain ⟨hi, hgr⟩ := d.ready_spec st hg
   exact d.decodeReady_eq_pure S (d.ready st).1 s hi hgr
 
-theorem BpDec.run_good (S : BpSolver) (d : BpDec) : ∀ (hist : List Vec) (st : BpSt),
+theorem BpDec_dec.run_good (S : BpSolver) (d : BpDec_dec) : ∀ (hist : List Vec) (st : BpSt),
     d.Good st → d.Good (d.run S st hist)
   | [], st, hg => hg
   | s :: rest, st, hg => by
-    unfold BpDec.run
-    exact BpDec.run_good S d rest _ (d.decode_eq_pure S st s hg).2
+    unfold BpDec_dec.run
+    exact BpDec_dec.run_good S d rest _ (d.decode_eq_pure S st s hg).2
 
 end Panqec
